@@ -691,6 +691,23 @@ enum SessionRequest {
 struct SessionState {
     request_tx: Sender<SessionRequest>,
     interrupted: Arc<AtomicBool>,
+    /// Set once the session has been closed (or its connection has
+    /// gone away). The worker clears `interrupted` whenever it picks
+    /// up a request, so without this a request that was still queued
+    /// when the session was closed would run with nothing left to
+    /// stop it.
+    closed: Arc<AtomicBool>,
+}
+
+impl SessionState {
+    /// Stop the running eval and make sure that every request still
+    /// queued for this session is interrupted as soon as it starts.
+    fn shut_down(&self) {
+        // `closed` must be set first: the worker reads it after
+        // clearing `interrupted`.
+        self.closed.store(true, Ordering::SeqCst);
+        self.interrupted.store(true, Ordering::SeqCst);
+    }
 }
 
 /// State held for one client connection. Each connection may host
@@ -732,6 +749,7 @@ impl Connection {
         let id = next_session_id(&mut self.next_id);
         let (request_tx, request_rx) = mpsc::channel();
         let interrupted = Arc::new(AtomicBool::new(false));
+        let closed = Arc::new(AtomicBool::new(false));
 
         self.interrupt_flags
             .lock()
@@ -740,6 +758,7 @@ impl Connection {
 
         let response_tx = self.response_tx.clone();
         let worker_interrupted = Arc::clone(&interrupted);
+        let worker_closed = Arc::clone(&closed);
         let temp_built_in_files = Arc::clone(&self.temp_built_in_files);
         let thread_name = format!("nrepl-session-{id}");
 
@@ -750,6 +769,7 @@ impl Connection {
                     request_rx,
                     response_tx,
                     worker_interrupted,
+                    worker_closed,
                     temp_built_in_files,
                 )
             })
@@ -760,6 +780,7 @@ impl Connection {
             SessionState {
                 request_tx,
                 interrupted,
+                closed,
             },
         );
         id
@@ -769,7 +790,7 @@ impl Connection {
         // Wake any in-progress eval so the worker shuts down
         // promptly once we drop the request channel.
         if let Some(s) = self.sessions.get(id) {
-            s.interrupted.store(true, Ordering::SeqCst);
+            s.shut_down();
         }
         self.sessions.remove(id).is_some()
     }
@@ -842,6 +863,7 @@ fn session_worker(
     request_rx: Receiver<SessionRequest>,
     response_tx: Sender<Value>,
     interrupted: Arc<AtomicBool>,
+    closed: Arc<AtomicBool>,
     temp_built_in_files: Arc<Option<TempBuiltInFiles>>,
 ) {
     let id_gen = IdGenerator::default();
@@ -851,6 +873,11 @@ fn session_worker(
     while let Ok(req) = request_rx.recv() {
         // Clear any stray interrupt set while the session was idle.
         interrupted.store(false, Ordering::SeqCst);
+        // ...but a closed session must not run anything to completion:
+        // re-raise the flag so this request stops at its first step.
+        if closed.load(Ordering::SeqCst) {
+            interrupted.store(true, Ordering::SeqCst);
+        }
 
         let stdout_buf = Arc::new(Mutex::new(String::new()));
         let stderr_buf = Arc::new(Mutex::new(String::new()));
@@ -1359,7 +1386,7 @@ fn serve_connection(
     // turn drops their `response_tx` clones, and once the last sender
     // is gone the writer thread exits.
     for s in conn.sessions.values() {
-        s.interrupted.store(true, Ordering::SeqCst);
+        s.shut_down();
     }
     drop(conn);
     let _ = writer_handle.join();
